@@ -6,10 +6,12 @@ Correspondence:
   stream A  a synthetic `optimization.io_mixin.IOMixin` problem (no Modelica): DataStore axis,
             times(), history(), bounds(), sequences of set_timeseries/get_timeseries for every t0
             position and ensemble size, against the Lean model;
-  stream B  a tiny Modelica model behind CSVMixin / PIMixin / NetCDFMixin with generated input
+  stream B  a tiny Modelica model (two outputs) behind CSVMixin / PIMixin (XML and binary) / NetCDFMixin with generated input
             folders (any t0 position, ensembles): after optimize() the three exports are parsed
             back and compared with extract_results(), with each other and with the model's stamps;
-  stream C  simulation CSVMixin / PIMixin: feed and export stamps.
+  stream C  simulation CSVMixin / PIMixin: feed and export stamps (also against the Lean feed/record model);
+  stream D  (c12_slices.py) what bounds / history / seed / constant_inputs / parameters hand out, on a
+            synthetic IOMixin problem with a parent that has its own dictionaries.
 """
 import datetime
 import logging
@@ -363,10 +365,10 @@ def stream_io(c, N):
         ax = obs["axis"][1]
         if [float(x) for x in ma["times_sec"]] != ax["times_sec"] or [float(x) for x in ma["horizon"]] != ax["horizon"]:
             c.disagree("seconds axis / horizon", case, ma, ax)
-        for m, h in obs["history"].items():
+        for m, h in obs.get("history", {}).items():
             if h and "c" in h and len(h["c"][0]) != ma["hist_len"]:
                 c.disagree("history length", case, ma["hist_len"], h["c"])
-        h0 = obs["history"].get(0)
+        h0 = obs.get("history", {}).get(0)
         if h0 and "c" in h0 and any(mm == 0 and vv == "c" for (mm, vv), _ in series):
             if [float(x) for x in mh["times"]] != h0["c"][0] or not same_wire(mh["values"], h0["c"][1]):
                 c.disagree("history of c (member 0)", case, mh, h0["c"])
@@ -390,13 +392,24 @@ def run(c):
         "generated import axes (2-8 stamps, equidistant and not, t0 first / inside / last), 1-3 members, series "
         "with NaN patterns; sequences of set_timeseries (bare arrays, Timeseries on any subset of the stamps, "
         "inconsistent calls, both check_consistency modes, new members) and get_timeseries; generated CSV / PI / "
-        "NetCDF input folders for a one-state Modelica model, optimize()/simulate() and all exports parsed back.  "
-        "distinct = (stream, back-end, #stamps, t0 index, ensemble size, op kinds) tuples"
+        "NetCDF input folders for a one-state Modelica model, optimize()/simulate() and all exports parsed back "
+        "(PI: XML and, on equidistant axes, binary flavour -- import and export --, 1-3 members, two model outputs; "
+        "the PI export is also decoded without rtctools' reader: headers in document order, binary: float32 records "
+        "in the same order; every (variable, member) series against extract_results(member) on the stamps from t0 on, "
+        "and XML / binary / CSV / NetCDF against each other) "
+        "(simulation: also the values set on the model before each solve, recorded through set_var, against the "
+        "Lean feed/record model).  Stream D: a synthetic IOMixin problem over a parent with its own bounds / history "
+        "/ seed / constant_inputs / parameters dictionaries; series for x, u, c and the four bound series per member "
+        "with NaN patterns; every accessor called once in a shuffled order, compared with the plain-Python statement "
+        "and with the Lean entry model; afterwards the whole store is read back (no accessor may change it).  "
+        "distinct = (stream, back-end, #stamps, t0 index, ensemble size, op kinds / stored (member, series) set) tuples"
     )
     c.assumptions = [
         "stamps are whole seconds (datetime arithmetic exact); import stamps strictly increasing (validated by the mixins)",
         "file encoders/decoders as in C11 (trusted libraries, tied by C11's correspondence)",
         "IPOPT returns the same point for the same problem data (cross-back-end comparison at the CSV precision 1e-6)",
+        "Timeseries(times, values) copies its values (timeseries.py) and SimulationProblem.update(dt) advances the model "
+        "time by dt (C09): table entries of the accessor / feed-record translation",
         "NetCDF export: t0 is the first import stamp (NetCDFMixin.read always sets the reference datetime to it); with a "
         "reference moved by a subclass the NetCDF axis would run past the import range (witness theorem), CSV/PI would not",
     ]
@@ -405,11 +418,19 @@ def run(c):
         "alignment, export stamps) for unbounded sizes; the values in the exports are tied by the oracle on real runs "
         "(extract_results() vs the three files, and the files against each other).  Interpolation of variables with "
         "their own coarser grid onto the export rows is C19's theorem, not repeated here.  Corpus: F15 (witness "
-        "theorem), F45, F46 inputs are ordinary cases.")
-    from .translate_c12 import gen_io_axis
+        "theorem), F45, F46 inputs are ordinary cases.  Gen/IoSlices.lean (15 generated theorems) ties the "
+        "per-variable bodies of bounds / history / seed / constant_inputs / parameters, DataStore.set_timeseries / "
+        "get_timeseries_sec and the feed / record dataflow of simulation IOMixin.initialize / update to "
+        "Model/C12Io.lean; known findings F5 (bounds entry replaced, not intersected: modelled as the code does, "
+        "its input class kept rare and checked by correspondence only), F37 / F38 (simulation feed loops over all "
+        "variables: the generators keep state-named series missing after t0) are not re-reported here.")
+    from .c12_slices import stream_slices
+    from .translate_c12 import gen_io_axis, gen_io_slices, gen_pi_bin_order
 
-    c.prove(extra=gen_io_axis(c))  # + the time-axis kernels translated from the source
+    # + the time-axis kernels and the accessor slices translated from the source
+    c.prove(extra=gen_io_axis(c) + gen_io_slices(c) + gen_pi_bin_order(c))
     stream_io(c, c.n(250, 8000))
+    stream_slices(c, c.n(150, 4000))
     tmp = tempfile.mkdtemp(prefix="c12_")
     try:
         MB.stream_backends(c, c.n(16, 350), tmp)
